@@ -350,7 +350,7 @@ pub fn run(ctx: &Ctx) {
     {
         let spec = crate::engine::docgen::DocSpec {
             pages: vec![crate::engine::docgen::PageSpec { own_media: true, own_resources: false, rotate: 0, text: b"probe".to_vec(), use_font: 0, use_image: 0, use_form: false, annots: 0, content_chain: 0, two_content_parts: false }],
-            fonts: vec![], images: vec![], xref_stream: true, objstm: false, incremental: 0, encrypt: 3, indirect_length: false, name_tree: false, outlines: 0, info: false, acroform: false, page_labels: false, nested_pages: false, tape: vec![], user_pw: vec![],
+            fonts: vec![], images: vec![], xref_stream: true, objstm: false, incremental: 0, encrypt: 3, indirect_length: false, name_tree: false, outlines: 0, info: false, acroform: false, page_labels: false, nested_pages: false, tape: vec![], user_pw: vec![], body_muts: vec![],
         };
         let b = docgen::build(&spec);
         if let Ok(file) = FileOptions::uncached().password(&b.password).load(b.file.clone()) {
